@@ -71,3 +71,44 @@ pub(crate) fn function(scheme: &Scheme, index: usize) -> Function {
         index,
     }
 }
+
+/// A scheme whose fields have the given distinct names (all mandatory unless stated).
+pub(crate) fn scheme_named(fields: &[(&'static str, Type)], nil_not_equal: bool) -> Scheme {
+    let mut b = SchemeBuilder::new();
+    let mut i = 0;
+    while i < fields.len() {
+        b.fields.push(FieldDefinition {
+            name: Arc::from(fields[i].0),
+            ty: fields[i].1,
+            optional: false,
+        });
+        i += 1;
+    }
+    b.set_nil_not_equal_behavior(nil_not_equal);
+    b.build()
+}
+
+/// CONTRACT STUB for `Scheme::get(name)` - the single lookup of the name registry
+/// (`HashMap`, hashbrown does not terminate under CBMC; C16 is not claimed): "returns
+/// the field registered under exactly this name, else the function, else None".
+/// Implemented as a linear search over the registration vectors.  Trusted.
+pub(crate) fn scheme_get__contract<'s>(this: &'s Scheme, name: &str) -> Option<Identifier<'s>>
+where
+    's: 's, // makes 's early-bound, like the impl-level lifetime of the original
+{
+    let mut i = 0;
+    while i < this.inner.fields.len() {
+        if this.inner.fields[i].name.as_bytes() == name.as_bytes() {
+            return Some(Identifier::Field(FieldRef { scheme: this, index: i }));
+        }
+        i += 1;
+    }
+    let mut i = 0;
+    while i < this.inner.functions.len() {
+        if this.inner.functions[i].0.as_bytes() == name.as_bytes() {
+            return Some(Identifier::Function(FunctionRef { scheme: this, index: i }));
+        }
+        i += 1;
+    }
+    None
+}
